@@ -222,20 +222,19 @@ func parseOperationDefinition(parser *Parser) (ast.Node, error) {
  * OperationType : one of query mutation subscription
  */
 func parseOperationType(parser *Parser) (string, error) {
+	if operationToken := parser.Token; operationToken.Kind == lexer.NAME {
+		switch operationToken.Value {
+		case ast.OperationTypeQuery, ast.OperationTypeMutation, ast.OperationTypeSubscription:
+		default:
+			// reported before advancing: lexing the next token must not take precedence
+			return "", unexpected(parser, operationToken)
+		}
+	}
 	operationToken, err := expect(parser, lexer.NAME)
 	if err != nil {
 		return "", err
 	}
-	switch operationToken.Value {
-	case ast.OperationTypeQuery:
-		return operationToken.Value, nil
-	case ast.OperationTypeMutation:
-		return operationToken.Value, nil
-	case ast.OperationTypeSubscription:
-		return operationToken.Value, nil
-	default:
-		return "", unexpected(parser, operationToken)
-	}
+	return operationToken.Value, nil
 }
 
 /**
